@@ -1,5 +1,218 @@
-use vcommon::Args;
+//! History monitors over the perpetual (position) part of `gmsol-model`: C07–C13.
+//!
+//! One shared *world driver* (`perp_world.rs`): 1 market, 2–6 positions (long/short × collateral
+//! long/short token), LP deposits, random position / liquidity / swap / clock / price / fee-state
+//! operations executed on the real model code through `MonMarket` / `MonPosition`. Model actions
+//! are not atomic, so the driver snapshots market + position before every action and restores on
+//! `Err` or panic (the program's revertible-buffer contract); failed attempts stay in the history.
+//!
+//! The world code is written against concrete aliases `T` / `S` / `D` and is compiled twice
+//! (`w64`: u64 with 9 decimals, `w128`: u128 with 20 decimals — production).
+//!
+//! * `perp_world.rs`  — configs, prices, operations, snapshot/restore, reference position set
+//!   (C07/C13), shadow token ledger (C08), per-operation monitors (C07, C08, C09, C12, C13).
+//! * `perp_oracle.rs` — independent BigInt oracles (pnl, liquidation check, funding rate, borrowing).
+//! * `perp_probe.rs`  — state probes run on clones of reached states: C09 boundary bisection,
+//!   C10 open-then-close, C11 pnl monotonicity, C12 direct rate probe.
+#![allow(clippy::too_many_arguments)]
 
-pub fn run(_args: &Args) -> Option<i32> {
-    None
+use vcommon::{monitor::run_shards, Args, Monitor};
+
+#[path = "perp_w64.rs"]
+pub mod w64;
+#[path = "perp_w128.rs"]
+pub mod w128;
+
+/// Which property the run is deciding (selects the monitors that report; the workload is shared).
+#[derive(Clone, Copy, Debug, PartialEq, Eq)]
+pub enum Prop {
+    C07,
+    C08,
+    C09,
+    C10,
+    C11,
+    C12,
+    C13,
+}
+
+impl Prop {
+    fn parse(id: &str) -> Option<Prop> {
+        Some(match id {
+            "C07" => Prop::C07,
+            "C08" => Prop::C08,
+            "C09" => Prop::C09,
+            "C10" => Prop::C10,
+            "C11" => Prop::C11,
+            "C12" => Prop::C12,
+            "C13" => Prop::C13,
+            _ => return None,
+        })
+    }
+
+    pub fn id(&self) -> &'static str {
+        match self {
+            Prop::C07 => "C07",
+            Prop::C08 => "C08",
+            Prop::C09 => "C09",
+            Prop::C10 => "C10",
+            Prop::C11 => "C11",
+            Prop::C12 => "C12",
+            Prop::C13 => "C13",
+        }
+    }
+}
+
+const WORLD_RULE: &str = "histories: per world 1 market (config drawn from production-like presets \
+or adversarial mutations: zero/100%/>100% fees, adaptive funding on/off, kink borrowing on/off, tiny \
+caps, impact factor positive>negative, virtual inventory on/off), 2-6 positions (long/short x \
+collateral long/short), LP deposits, then a weighted random operation sequence (increase, partial / \
+full / collateral-only / capped / oversize decrease, liquidation, insolvent close, deposit, \
+withdraw, swap, clock advance, price move with min<max spreads, distribute+borrowing+funding \
+updates as update_fees_state runs them); every action runs on the real gmsol-model code for \
+u64/9 (even shards) and u128/20 (odd shards); market+position are snapshotted and restored on \
+Err/panic. ";
+
+fn rule(p: Prop) -> String {
+    let tail = match p {
+        Prop::C07 => "After EVERY operation (success or restored failure) the 12 totals (open interest usd, \
+open interest in tokens, collateral sum; per side x collateral token) are compared exactly with sums over \
+the reference set of open positions (updated from the real position after each success); should_remove => \
+position size/tokens/collateral all zero. Non-trivial = a successful position operation that changed size \
+or collateral; distinct = hash of (instantiation, op kind, outcome class, pre-state size/collateral, op amounts).",
+        Prop::C08 => "Shadow vault per token fed only from operation reports (deposit/swap/collateral in; \
+withdraw/swap/decrease outputs, claimable collateral for user/holding, claimable funding out) is compared after \
+EVERY operation with liquidity+swap_impact+claimable_fee+sum(collateral): difference must equal the running \
+funding residual F (funding paid per reports/events minus funding claimed) exactly; then F + reported \
+shortfalls >= 0 (literal) and F + shortfalls + pending payer fees - pending claimable >= 0 (tight). \
+Non-trivial = successful operation that moved tokens; distinct = hash of (instantiation, op kind, outcome \
+class, amounts moved).",
+        Prop::C09 => "After every successful increase / non-closing decrease the real check_liquidatable at the \
+execution prices must be None (with the validation flags of the action, and literally with the liquidation \
+predicate), an independent BigInt recomputation (pnl, fees, thresholds recomputed; price-impact value taken \
+from the real position_price_impact) must agree with the real verdict; a liquidation that succeeds must have \
+had a pre-state that is liquidatable under liquidation thresholds (real + BigInt) and must remove the whole \
+position; bisection on collateral and on index price places cases at threshold +-1. Non-trivial = a verdict \
+compared on an open position; distinct = hash of (instantiation, check site, verdict class, position state, prices).",
+        Prop::C10 => "On clones of reached states: open a fresh position (random side, collateral token, \
+collateral, leverage) and fully close it immediately at identical prices and zero elapsed time (no swap of \
+outputs); received value (output + secondary output + claimable collateral for user + claimable funding) \
+must not exceed the deposited collateral value beyond one base unit per operation. Non-trivial = both legs \
+succeeded; distinct = hash of (instantiation, side, collateral token, collateral, size, prices, state digest).",
+        Prop::C11 => "On reached states, for every open position pnl_value (and real full closes on clones) is \
+evaluated at index price pairs p1<p2 (other prices fixed): uncapped pnl monotone (long non-decreasing, short \
+non-increasing), capped pnl monotone, capped <= uncapped, partial close share within rounding of proportional, \
+and pnl_value equals an independent BigInt recomputation. Non-trivial = a pair/probe on an open position with \
+non-zero pnl; distinct = hash of (instantiation, probe kind, position state, prices).",
+        Prop::C12 => "Every funding update in the histories plus a direct probe over synthetic open-interest / \
+elapsed-time / parameter sets: the real next_funding_factor_per_second is compared with a BigInt oracle and with \
+the bounds (adaptive: min<=|rate|<=max, |stored next|<=max; fallback: |rate|<=max, larger side pays, literal min \
+bound); after EVERY operation all 8 funding indices are non-decreasing and pending_funding_fees of every open \
+position computes. Non-trivial = an update/probe with open interest on both sides; distinct = hash of \
+(instantiation, mode, inputs).",
+        Prop::C13 => "After EVERY operation: cumulative borrowing factors non-decreasing; total_borrowing per side \
+equals the sum over the reference position set of floor(size*factor_at_last_settlement/UNIT) exactly; \
+total_pending_borrowing_fees is recomputed in BigInt from the real next cumulative factor and must be \
+non-negative and equal to the real result. Non-trivial = check on a state with open positions on that side; \
+distinct = hash of (instantiation, side, totals).",
+    };
+    format!("{WORLD_RULE}{tail}")
+}
+
+pub fn run(args: &Args) -> Option<i32> {
+    let prop = Prop::parse(args.id.as_str())?;
+    let mut mon = Monitor::new(args, &rule(prop));
+
+    // Workload (bounded by counts): shards x worlds x steps.
+    let n_shards: u64 = args.scale(64, 512);
+    let (worlds_q, worlds_t): (u64, u64) = match prop {
+        Prop::C07 => (36, 60),
+        Prop::C08 => (30, 50),
+        Prop::C09 => (20, 32),
+        Prop::C10 => (20, 32),
+        Prop::C11 => (20, 32),
+        Prop::C12 => (26, 40),
+        Prop::C13 => (30, 50),
+    };
+    let worlds = args.scale(worlds_q, worlds_t);
+    let steps = args.scale(260, 320);
+    let only: Option<String> = args.extra.get("inst").cloned();
+
+    run_shards(&mut mon, args.threads, n_shards, |shard, m| {
+        let use64 = match only.as_deref() {
+            Some("u64") => true,
+            Some("u128") => false,
+            _ => shard % 2 == 0,
+        };
+        if use64 {
+            w64::world::run_shard(prop, args.seed, shard, worlds, steps, m);
+        } else {
+            w128::world::run_shard(prop, args.seed, shard, worlds, steps, m);
+        }
+    });
+
+    mon.assume("prices are non-zero with min<=max; token amounts and USD values stay within what the \
+instantiation's integer type can represent (larger values make the model return Err, counted as failed attempts)");
+    mon.assume("the driver restores the pre-action snapshot of market and position on Err/panic, as the \
+program's revertible buffer does (checked separately by C21)");
+    mon.assume("fee-state updates (distribute position impact, borrowing, funding) run before position \
+operations as in update_fees_state, and additionally on their own at random points");
+
+    // Minimum observations, otherwise the run is inconclusive.
+    mon.require("op_increase_ok", 2_000);
+    mon.require("op_decrease_ok", 2_000);
+    mon.require("op_failed", 500);
+    mon.require("worlds_u64", 50);
+    mon.require("worlds_u128", 50);
+    match prop {
+        Prop::C07 => {
+            mon.require("c07_checks", 100_000);
+            mon.require("decrease_full_ok", 500);
+            mon.require("decrease_partial_ok", 500);
+            mon.require("decrease_collateral_only_ok", 100);
+            mon.require("decrease_capped_ok", 50);
+            mon.require("liquidation_ok", 50);
+            mon.require("promoted_to_full_close", 50);
+            mon.require("promoted_tokens_would_zero", 10);
+            mon.require("partial_token_delta_zero", 10);
+        }
+        Prop::C08 => {
+            mon.require("c08_checks", 100_000);
+            mon.require("funding_paid_ops", 300);
+            mon.require("funding_claimed_ops", 300);
+            mon.require("decrease_with_secondary_output", 50);
+            mon.require("claimable_for_user_ops", 10);
+            mon.require("op_swap_ok", 300);
+            mon.require("op_deposit_ok", 300);
+            mon.require("op_withdraw_ok", 100);
+        }
+        Prop::C09 => {
+            mon.require("c09_post_checks", 3_000);
+            mon.require("c09_oracle_agree", 3_000);
+            mon.require("liquidation_ok", 50);
+            mon.require("liquidation_rejected_not_liquidatable", 50);
+            mon.require("c09_boundary_pairs", 100);
+        }
+        Prop::C10 => {
+            mon.require("c10_roundtrips_ok", 2_000);
+        }
+        Prop::C11 => {
+            mon.require("c11_pairs", 5_000);
+            mon.require("c11_oracle_agree", 5_000);
+            mon.require("c11_capped_cases", 50);
+            mon.require("c11_partial_cases", 1_000);
+        }
+        Prop::C12 => {
+            mon.require("c12_rate_checks_adaptive", 1_000);
+            mon.require("c12_rate_checks_fallback", 1_000);
+            mon.require("c12_index_checks", 100_000);
+            mon.require("c12_pending_fee_checks", 50_000);
+        }
+        Prop::C13 => {
+            mon.require("c13_checks", 100_000);
+            mon.require("c13_pending_ok_kink", 5_000);
+            mon.require("c13_pending_ok_power", 5_000);
+            mon.require("c13_factor_increased", 1_000);
+        }
+    }
+    Some(mon.finish())
 }
